@@ -110,11 +110,11 @@ struct Tracker {
 }
 
 #[allow(clippy::too_many_arguments)]
-fn history(out: &mut Out, rng: &mut Rng, consensus: &Consensus, idx: u64, honest_only: bool) {
+fn history(out: &mut Out, rng: &mut Rng, consensus: &Consensus, idx: u64, honest_only: bool, competing: bool) {
     intern_reset(true);
     let guard = ckb_systemtime::faketime();
     let last_n = *rng.pick(&[1u64, 2, 3, 5, 10]);
-    let n_peers = rng.range(1, 3) as usize;
+    let n_peers = if competing { 2 } else { rng.range(1, 3) as usize };
     let epochs = rng.range(4, 20) as usize;
     let pbits = *rng.pick(&[6u32, 12, 24]);
     let plan = if rng.chance(2, 3) { legal_plan(rng, epochs, 2, 8, pbits) } else { flat_plan(epochs, rng.range(3, 9), rng.range(1, 30)) };
@@ -128,10 +128,11 @@ fn history(out: &mut Out, rng: &mut Rng, consensus: &Consensus, idx: u64, honest
     let mut c = Client::new(&chains[0], consensus, last_n, n_peers as u32);
     let store0 = store_term(&c);
     let mut sims: Vec<PeerSim> = (0..n_peers).map(|k| {
-        let on_fork = !honest_only && rng.chance(1, 4);
+        let on_fork = if competing { k == 1 } else { !honest_only && rng.chance(1, 4) };
         let ch = if on_fork { 1 } else { 0 };
         let tip = chains[ch].tip();
-        PeerSim { id: PeerIndex::new(k + 1), chain: ch, height: rng.range(3, tip.min(3 + tip / 2)), connected: false, honest: honest_only || rng.chance(2, 3) }
+        let h0 = if competing { fork_at } else { rng.range(3, tip.min(3 + tip / 2)) };
+        PeerSim { id: PeerIndex::new(k + 1), chain: ch, height: h0, connected: false, honest: honest_only || competing || rng.chance(2, 3) }
     }).collect();
     let mut now = T0 + 10_000;
     let steps = rng.range(6, 30);
@@ -144,6 +145,7 @@ fn history(out: &mut Out, rng: &mut Rng, consensus: &Consensus, idx: u64, honest
     // what each peer announced (chain, height), for the convergence oracle
     let mut announced: Vec<Option<(usize, u64)>> = vec![None; n_peers];
     let mut prev_td = c.storage.get_last_state().0;
+    let mut prev_tip = c.storage.get_last_state().1.calc_header_hash();
 
     let total_steps = steps + if honest_only { 30 } else { 0 };
     for step in 0..total_steps {
@@ -183,6 +185,17 @@ fn history(out: &mut Out, rng: &mut Rng, consensus: &Consensus, idx: u64, honest
                 let o = c.disconnect(pid);
                 (format!("EvDisconnect {}", pid.value()), o, "disconnect")
             }
+            8 if !closing && rng.chance(1, 6) => {
+                let before = obs_store(&c).to_coq();
+                c.restart(last_n, n_peers as u32);
+                if obs_store(&c).to_coq() != before {
+                    problems.push(format!("[C12-restart-differs] step {}: tip / total difficulty / last-N differ after a restart", step));
+                }
+                for sim in sims.iter_mut() { sim.connected = false; }
+                for a in announced.iter_mut() { *a = None; }
+                let o = Outcome { panicked: false, ban: None, disconnected: false, sent: vec![], sent_to: vec![], bans: vec![], disconnects: vec![] };
+                ("EvRestart".to_string(), o, "restart")
+            }
             2 | 3 => {
                 let o = c.tick(REFRESH_PEERS_TOKEN, pid);
                 (format!("EvTick {}", contents_term(&o)), o, "tick")
@@ -190,7 +203,8 @@ fn history(out: &mut Out, rng: &mut Rng, consensus: &Consensus, idx: u64, honest
             4 | 5 | 6 | 7 => {
                 // announce a last state
                 let ch = chains[sims[k].chain].clone();
-                let grow = if closing { 0 } else { match rng.below(5) { 0 => 0, 1 | 2 => 1, 3 => rng.range(2, last_n + 2), _ => rng.range(2, 30) } };
+                let first_announce = c.state(pid).map(|s| s.get_last_state().is_none()).unwrap_or(true);
+                let grow = if closing || (competing && first_announce) { 0 } else if competing { 1 } else { match rng.below(5) { 0 => 0, 1 | 2 => 1, 3 => rng.range(2, last_n + 2), _ => rng.range(2, 30) } };
                 sims[k].height = (sims[k].height + grow).min(ch.tip());
                 let mut what = "announce";
                 let msg_vh: packed::VerifiableHeader = if sims[k].honest || rng.chance(2, 3) {
@@ -199,7 +213,17 @@ fn history(out: &mut Out, rng: &mut Rng, consensus: &Consensus, idx: u64, honest
                     match rng.below(4) {
                         0 => { what = "announce-stale"; ch.packed_vheader(rng.range(1, sims[k].height)) }
                         1 => { what = "announce-other-chain"; let o = &chains[1 - sims[k].chain]; o.packed_vheader(rng.range(1, o.tip())) }
-                        2 if sims[k].height < ch.tip() => { what = "announce-forged-child"; forged_child(&ch, sims[k].height + 1, &(U256::one() << (rng.range(1, 200) as u32))) }
+                        2 => {
+                            // a forged child of the header this peer has PROVEN (child fast path)
+                            let proven = c.state(pid).and_then(|s| s.get_prove_state().map(|p| p.get_last_header().header().number()));
+                            match proven {
+                                Some(pn) if pn < ch.tip() && ch.on_chain(pn, &c.state(pid).unwrap().get_prove_state().unwrap().get_last_header().header().hash()) => {
+                                    what = "announce-forged-child";
+                                    forged_child(&ch, pn + 1, &(U256::one() << (rng.range(1, 200) as u32)))
+                                }
+                                _ => { what = "announce-stale"; ch.packed_vheader(rng.range(1, sims[k].height)) }
+                            }
+                        }
                         _ => { what = "announce-bad-root"; let h = ch.packed_vheader(sims[k].height); let root = h.parent_chain_root().as_builder().end_number(12345u64.pack()).build(); h.as_builder().parent_chain_root(root).build() }
                     }
                 };
@@ -281,6 +305,10 @@ fn history(out: &mut Out, rng: &mut Rng, consensus: &Consensus, idx: u64, honest
         let (td, tip) = c.storage.get_last_state();
         if td < prev_td { problems.push(format!("[C12-tip-not-heavier] step {}: stored total difficulty decreased", step)); }
         let tip_hash = tip.calc_header_hash();
+        if td == prev_td && tip_hash != prev_tip {
+            problems.push(format!("[C12-tip-not-heavier] step {} ({}): the stored tip changed although the total difficulty did not increase", step, name));
+        }
+        prev_tip = tip_hash.clone();
         if td != prev_td {
             let proven_somewhere = c.peers.get_all_prove_states().iter().any(|(_, ps)| ps.get_last_header().header().hash() == tip_hash);
             if !proven_somewhere { problems.push(format!("[C12-tip-not-proven] step {}: stored tip is not the proven header of any peer", step)); }
@@ -323,15 +351,53 @@ fn history(out: &mut Out, rng: &mut Rng, consensus: &Consensus, idx: u64, honest
     let mut kv: Vec<String> = kinds.iter().map(|(k, v)| format!("{}={}", k, v)).collect();
     kv.sort();
     let descr = format!("history of {} events over {} peers (last_n {}, main chain {} blocks, fork at {} +{}), events: {}", events.len(), n_peers, last_n, total, fork_at, fork_extra, kv.join(","));
-    let tag = if honest_only { "honest" } else { "mixed" };
+    let tag = if competing { "competing-children" } else if honest_only { "honest" } else { "mixed" };
     out.case(&format!("history-{}", idx), &["history", tag], &model, &impl_v, oracle, &descr);
     intern_reset(false);
+}
+
+/// the bytes that carry tip, total difficulty and last-N across a restart
+fn codec_cases(rng: &mut Rng, n: u64, out: &mut Out) {
+    use crate::storage::{Key, LAST_STATE_KEY};
+    use rocksdb::ops::Get;
+    let storage = crate::tests::utils::new_storage("verif-codec");
+    let chain = SynChain::new(flat_plan(3, 5, 7), 12, 5);
+    storage.init_genesis_block(chain.genesis_block());
+    for i in 0..n {
+        let bits = *rng.pick(&[0u32, 1, 8, 64, 200, 256]);
+        let td = rng.u256_bits(bits);
+        let header = chain.headers[rng.range(0, 11) as usize].clone();
+        let k = rng.range(0, 6) as usize;
+        let lastn: Vec<HeaderView> = (0..k).map(|j| {
+            let raw = header.data().raw().as_builder().number((if rng.chance(1, 4) { rng.next() } else { rng.range(0, 500) } + j as u64).pack()).build();
+            header.data().as_builder().raw(raw).build().into_view()
+        }).collect();
+        storage.update_last_state(&td, &header.data(), &lastn);
+        let raw_ls = storage.db.get(Key::Meta(LAST_STATE_KEY).into_vec()).unwrap().map(|v| v.to_vec()).unwrap_or_default();
+        let raw_ln = storage.db.get(Key::Meta("LAST_N_HEADERS").into_vec()).unwrap().map(|v| v.to_vec()).unwrap_or_default();
+        let (td2, h2) = storage.get_last_state();
+        let ln2 = storage.get_last_n_headers();
+        let bytes = |b: &[u8]| Val::l(b.iter().map(|x| Val::n(*x)).collect());
+        let v = Val::l(vec![
+            bytes(&raw_ls), bytes(&raw_ln),
+            Val::l(vec![Val::n(format!("{:#x}", td2)), bytes(h2.as_slice())]),
+            Val::l(ln2.iter().map(|(n, h)| Val::l(vec![Val::n(n), bytes(h.as_slice())])).collect()),
+        ]);
+        let blist = |b: &[u8]| coq_list(&b.iter().map(|x| format!("{}", x)).collect::<Vec<_>>());
+        let model = format!("(run_codec {:#x} {} {})", td, blist(header.data().as_slice()),
+            coq_list(&lastn.iter().map(|h| format!("({}, {})", h.number(), blist(h.hash().as_slice()))).collect::<Vec<_>>()));
+        let same = td2 == td && h2.as_slice() == header.data().as_slice()
+            && ln2.len() == lastn.len() && ln2.iter().zip(lastn.iter()).all(|(a, b)| a.0 == b.number() && a.1 == b.hash());
+        let oracle = if same { Ok(()) } else { Err("[C12-restart-differs] the stored tip / total difficulty / last-N do not read back as written".to_string()) };
+        out.case(&format!("codec-{}", i), &["codec"], &model, &v, oracle, &format!("update_last_state(td={:#x}, header #{}, {} last-N headers) then raw read", td, header.number(), k));
+    }
 }
 
 pub(crate) fn run(seed: u64, n: u64, out: &mut Out) {
     let mut rng = Rng::new(seed);
     let consensus = dummy_consensus();
+    codec_cases(&mut rng, (n / 4).max(8), out);
     for i in 0..n {
-        history(out, &mut rng, &consensus, i, i % 2 == 0);
+        history(out, &mut rng, &consensus, i, i % 2 == 0, i % 5 == 3);
     }
 }
